@@ -1530,4 +1530,62 @@ def _run(ctx):
         nm: {"cases": seen_cls.get(nm, 0), "failures": fail_cls.get(nm, 0)} for nm in MODEL_CLASSES}
     cov["payload3_classes_with_no_case"] = sorted(nm for nm in MODEL_CLASSES if seen_cls.get(nm, 0) == 0)
     ctx.model_coverage = cov
+    ctx.trusted_base += [
+        "Model/Payload3*.lean: hand transliteration of the image-resource payloads, the adjustment payloads, vector data and filter "
+        "effects (struct formats as data, PCodec combinators); tied by this run's correspondence check (write vs enc byte for byte incl. the "
+        "returned count and the object state, read vs dec token for token incl. the cursor, exception classes on truncated / mutated bytes) and "
+        "by the regenerated tables of Generated/Payload3.lean (registries, enums, validator options, utils calls, conditions, asserts, caught "
+        "exceptions, base classes; the struct formats of the models are parsed from the format strings of the source)",
+        "harness/payload3_common.py: conversion of the real objects to the model's token form, incl. float -> 32/64-bit pattern and "
+        "fixed-point attribute -> stored integer (16.16, 8.24); harness/extract_payload3.py",
+    ]
+    ctx.notes += [
+        "Third batch (Props/C01Payload3.lean) modelled and proved: unit 7 every class of image_resources.TYPES (" + ", ".join(UNIT7_CLASSES) +
+        " + Color, StringElement, DescriptorBlock as resource payloads); unit 8 the adjustment payloads (" + ", ".join(UNIT8_CLASSES) +
+        "; BlackAndWhite / Vibrance / SolidColor / gradient and pattern fills are DescriptorBlock, Posterize / Threshold ShortIntegerElement, "
+        "Invert EmptyElement); unit 9 vector data (" + ", ".join(UNIT9_CLASSES) + "; VectorStrokeSetting = DescriptorBlock, VectorOriginationData "
+        "= DescriptorBlock2); unit 10 filter effects (" + ", ".join(UNIT10_CLASSES) + "). For each: <class>_roundtrip | _roundtrip_at_end, "
+        "_rewrite_identical, _written_is_length, tagged_block_<class> / image_resource_<class>; ties <unit>_registry_tied (every registered class is "
+        "modelled), _calls_tied, _conditions_tied (if / while tests, asserts, caught exception classes, bases), _formats_tied (parseFmt of the "
+        "source's format strings = the model's formats), unit7_enums_tied, unit8_validators_tied, unit9_selectors_tied, unit9_fixed_point_tied.",
+        "Finding of unit 7, repaired (repo commit 588bcfb): the proof of slices_v6_roundtrip_at_end forced 'a slice without descriptor is not "
+        "followed by a slice whose id is 16' (SlicesV6.chainOK). On the real code SlicesV6(items=[SliceV6(slice_id=1), SliceV6(slice_id=16, "
+        "group_id=1000), SliceV6(slice_id=3)]) was written and then failed to load: SliceV6.read undid its speculative DescriptorBlock.read on "
+        "ValueError only, the read ran out of data (IOError). The reader now recovers from IOError too (witnesses "
+        "slices_id16_speculative_read_ioerror, slices_id16_recovered_after_fix, replayed by this run). What stays excluded by chainOK and does "
+        "not survive is the point where the next slice happens to form a descriptor block (witness slices_id16_misparse; known finding "
+        + SLICE16_KNOWN + "): the format has no marker there.",
+        "Third batch, format-excluded points ((iii) clauses, each with a Lean witness and replayed as 'excluded' instances): SliceV6 associated id "
+        "exactly for origin 1, a descriptor whose classID is four zero bytes is read as no descriptor (the reader's own rule); Slices version 6 <-> "
+        "SlicesV6; Levels records beyond 29 only with the trailer, extra_version 3; HueSaturation six items, SelectiveColor ten plates; PhotoFilter / "
+        "GradientMap / Curves fields that the version does not store; Curves count field vs data, 2..19 points, marker item shape = is_map; "
+        "FilterEffect max_channels + 2 channels, unwritten channel / extra without content. Outside the models (not generated): writers that index "
+        "or unpack a missing value (Levels with fewer than 29 records: IndexError; None where a tuple is unpacked: TypeError), attribute values that "
+        "are not values of the on-disk type (doubles that are not float32 values for `f` fields, fixed-point attributes that are not multiples of "
+        "2^-16 / 2^-24: width clauses; the float conversions themselves are outside the model).",
+    ]
+    ctx.assumptions[:] = [a.replace("the payload classes listed under model_coverage as opaque (vector data, adjustments, filter effects, engine "
+                                    "data, image-resource payloads, ...) are opaque bytes in the model",
+                                    "the payload classes listed under model_coverage as opaque (engine data, ...) are opaque bytes in the model")
+                          for a in ctx.assumptions]
+    ctx.notes[:] = [n.replace("Stated in DESIGN, not proved here: codec laws of the remaining payload classes (vector data, adjustments, "
+                              "filter effects, engine data, image-resource payloads); see model_coverage.",
+                              "Stated in DESIGN, not proved here: codec laws of engine data (C18) and the element-typed composition of image "
+                              "resources / adjustment blocks into whole documents; see model_coverage.") for n in ctx.notes]
+    ctx.rule += (
+        " Third batch: for every modelled class of image resources, adjustments, vector data and filter effects, the distinct instances of the "
+        "parsed fixtures and of the tests' payload files (quick: a seeded sample of 8 per class; thorough: all), hand-listed boundary instances "
+        "(every optional branch, 0 / max of each width, every enum member, the excluded points, values that do not fit) and seeded generated ones "
+        "(rows over the whole on-disk domain of each field, list lengths 0..40, nested subpaths, every version x optional-trailer pattern): one "
+        "writer case (bytes, returned count, object unchanged, WF), one reader case (structure and cursor, random bytes before - and after unless "
+        "the reader probes what follows), the Python-only oracle, and 4-10 truncations / overwrites / flips / deletions of up to 300 encodings per "
+        "class as reader cases.")
     ctx.extra["payload3_phase_seconds"] = round(time.time() - t0, 1)
+    if ctx.tier == "thorough":
+        prev = ctx.extra.get("leanchecker")
+        ctx.recheck(["PsdVerif.Props.C01Payload3"])
+        mine = ctx.extra.get("leanchecker")
+        if isinstance(prev, dict) and isinstance(mine, dict):
+            ctx.extra["leanchecker"] = {"modules": prev.get("modules", []) + mine.get("modules", []),
+                                        "ok": bool(prev.get("ok")) and bool(mine.get("ok")),
+                                        "tail": (prev.get("tail", "") + mine.get("tail", ""))[-400:]}
